@@ -519,7 +519,9 @@ Proof.
     destruct (chan s (q_ch Q)) as [|t r] eqn:Hc.
     + kred. eapply K_conv; eauto; unfold runf; qred; rewrite ?Hpc; cbn; auto; discriminate.
     + apply Hstart; try reflexivity; auto. unfold runf. now rewrite Hpc.
-  - (* CPopOver *)
+  - (* CPopOver: with or without the second poll of the channel *)
+    destruct (if pop_overflow_rechecks_channel then chan s (q_ch Q) else []) as [|t0 r0] eqn:Hc;
+      [|apply Hstart; try reflexivity; auto; unfold runf; now rewrite Hpc].
     destruct (q_over Q) as [|t r] eqn:Ho.
     + kred. eapply K_conv; eauto; unfold runf; qred; rewrite ?Hpc; cbn; auto; discriminate.
     + apply Hstart; try reflexivity; auto. unfold runf. now rewrite Hpc.
